@@ -16,7 +16,7 @@ class ChildTimeout(BaseException):
     """The child did not finish in time (the library hung inside it)."""
 
 
-def in_pristine_child(fn, wall_s=40, raise_errors=True):
+def in_pristine_child(fn, wall_s=120, raise_errors=True):
     """Run fn() in a forked child and return its (pickled) result. The parent has not parsed anything yet when this is
     called, so the child starts from pristine process-wide state; whatever the child's parsing leaves behind dies with it."""
     r, wfd = os.pipe()
